@@ -3,11 +3,13 @@
 package tstress
 
 import (
+	"context"
 	"fmt"
 	"testing"
 	"time"
 
 	"github.com/cilium/statedb"
+	"github.com/cilium/stream"
 	"pgregory.net/rapid"
 
 	"verifharness/vk"
@@ -29,6 +31,7 @@ type IsoCase struct {
 	Objs    int   `json:"objs"`    // deletions per garbage table
 	Order   []int `json:"order"`   // the order in which the other tables are written while the writer is open
 	Rounds  int   `json:"rounds"`  // collector triggers while the writer is open
+	Observe bool  `json:"observe,omitempty"` // an Observable subscription on the held table is cancelled while the writer is open
 }
 
 const isoGrace = 20 * time.Second
@@ -78,6 +81,25 @@ func runIso(c IsoCase) (sig string, err error) {
 		}
 		iters = append(iters, it)
 	}
+	// an observer of the held table (it never sees deletions: none are made there)
+	var (
+		events    <-chan statedb.Change[*acct]
+		cancelObs context.CancelFunc
+	)
+	if c.Observe {
+		var ctx context.Context
+		ctx, cancelObs = context.WithCancel(context.Background())
+		defer cancelObs()
+		events = stream.ToChannel(ctx, statedb.Observable(db, tables[held]))
+		wtxn := db.WriteTxn(tables[held])
+		tables[held].Insert(wtxn, &acct{ID: "seen"})
+		wtxn.Commit()
+		select {
+		case <-events:
+		case <-time.After(isoGrace):
+			return "observable", fmt.Errorf("the observer of t%d did not receive a committed insert within %v", held, isoGrace)
+		}
+	}
 	// the writer that stays open
 	w := db.WriteTxn(tables[held])
 	tables[held].Insert(w, &acct{ID: "held"})
@@ -89,6 +111,24 @@ func runIso(c IsoCase) (sig string, err error) {
 		}
 	}
 	defer release()
+	if c.Observe {
+		// cancelling a subscription completes the stream also while a writer of
+		// the observed table is open (the subscriber must not have to wait for it)
+		cancelObs()
+		timeout := time.After(isoGrace)
+	drain:
+		for {
+			select {
+			case _, ok := <-events:
+				if !ok {
+					break drain
+				}
+			case <-timeout:
+				release()
+				return "completion-blocked-by-writer", fmt.Errorf("the stream of a cancelled Observable(t%d) did not complete within %v while a write transaction on t%d was open", held, isoGrace, held)
+			}
+		}
+	}
 	for r := 0; r < max(1, c.Rounds); r++ {
 		db.VerifTriggerGC()
 		time.Sleep(2 * time.Millisecond) // let the collector reach its write transaction
@@ -126,7 +166,7 @@ func runIso(c IsoCase) (sig string, err error) {
 	return "", nil
 }
 
-const ruleC10Iso = "2-5 tables; a subset of them (never the one whose writer is held) gets a change iterator, objects, delivered deletions (collectible garbage); a write transaction is opened on the held table and kept open while the collector is triggered 1-3 times and every other table is written (WriteTxn+Insert+Commit from a goroutine holding nothing else) in a generated order; each must complete (grace 20 s real time) and be visible to a reader. Non-trivial = at least one garbage table has a lower root position than the held table; distinct by case encoding."
+const ruleC10Iso = "2-5 tables; a subset of them (never the one whose writer is held) gets a change iterator, objects, delivered deletions (collectible garbage); a write transaction is opened on the held table and kept open while the collector is triggered 1-3 times and every other table is written (WriteTxn+Insert+Commit from a goroutine holding nothing else) in a generated order; each must complete (grace 20 s real time) and be visible to a reader; in a third of the cases an Observable subscription on the held table is cancelled while the writer is open and its stream must complete. Non-trivial = at least one garbage table has a lower root position than the held table; distinct by case encoding."
 
 func TestC10CollectorIsolation(t *testing.T) {
 	const test = "TestC10CollectorIsolation"
@@ -148,6 +188,7 @@ func TestC10CollectorIsolation(t *testing.T) {
 		c.Objs = rapid.IntRange(1, 3).Draw(rt, "objs")
 		c.Order = rapid.SliceOfN(rapid.IntRange(0, c.NTables-1), 1, 5).Draw(rt, "order")
 		c.Rounds = rapid.IntRange(1, 3).Draw(rt, "rounds")
+		c.Observe = rapid.IntRange(0, 2).Draw(rt, "observe") == 0
 		nt := false
 		for _, g := range c.Garbage {
 			if g%c.NTables < c.Held && g%c.NTables != c.Held {
